@@ -7,7 +7,7 @@
 From Coq Require Import List NArith Bool Lia Sorted.
 Import ListNotations.
 Require Import EV.Base EV.ListN EV.Access EV.Query EV.SlotMap EV.Reserve EV.HList EV.Loop EV.World EV.SlotMapGet
-  EV.ArchProofs EV.QueryProofs EV.WorldFrame EV.Store EV.Graph EV.Effects EV.Reach EV.RemoveComp EV.Member EV.Listen.
+  EV.ArchProofs EV.WorldFrame EV.Store EV.Graph EV.Effects EV.Reach EV.RemoveComp EV.Member EV.Listen.
 Open Scope N_scope.
 
 Definition shape {V} (m : smap V) := sview (fun _ : V => tt) m.
